@@ -57,6 +57,9 @@ var loopShapes = []loopShape{
 	{"try-catch", `for(;;){ try { for(;;){} } catch(e) {} }`, true, 64},
 	{"try-finally", `for(;;){ try { for(;;){} } finally { for(;;){} } }`, true, 64},
 	{"bindings-churn", `var b=_.bindings||{}, i=0; for(;;){ b['n'] = i++; _.out === undefined; }`, true, 64},
+	// the time is spent while the result is exported (a getter of the returned object): D51, hung Exec
+	{"getter-loop", `return {get a() { for(;;){} }};`, true, 64},
+	{"getter-rec", `return {x: {get a() { function f(n){ return n<=0 ? 0 : 1 + f(n-1); } for(;;){ f(100); } }}};`, true, 64},
 	{"unbounded-rec", `function f(n){ return f(n+1)+1; } return {x: f(0)};`, true, 4},
 	{"finite-loop", `var s=0; for(var i=0;i<2000;i++){ s+=i; } return {s: s};`, false, 64},
 	{"finite-rec", `function r(n){ return n<=0 ? 0 : 1 + r(n-1); } return {r: r(300)};`, false, 64},
